@@ -161,6 +161,7 @@ def link_grammar(ctx, mutate=None, tag=""):
                 return S.Sym(rn_attr(attr), "attr")
             return NotImplemented
         ex = S.SExec(classdef=cls, enums=enums, models=models, on_attr=on_attr)
+        ex.production_names = [rn_attr(x) for x in p["names"]]
         try:
             res = ex.call_function(fn, {"self": S.Obj("parser"), "p": S.Sym("p", "production")})
             got = norm(res)
